@@ -134,6 +134,7 @@ var idMaps = [][2]string{
 	{"%2F?#&=+", ".x"},         // URL-reserved
 	{"\x01\x1f", "\x7f\u2028"}, // control characters, DEL, line separator
 	{"\\u003c", "\\u0026"},     // a literal backslash before u003c: the text of a JSON escape
+	{" ", "\n"},                // white space at the edges
 }
 
 func (v dVariant) id(tok string) string {
